@@ -191,6 +191,15 @@ func verif_HandleVisitor(c *Controller, m *msg.NatHoleVisitor, transporter trans
 	precheck := m.PreCheck
 	verif.ResetEvents()
 	c.HandleVisitor(m, transporter, visitorUser)
+	// "an error response to both parties": when the analysis fails, each party
+	// is answered under its own transaction id (a client routes a response by
+	// that id; under the other party's id it is never consumed)
+	const evAna, evGen = "Controller).analysis", "Controller).GenNatHoleResponse"
+	if verif.Called(evAna) && verif.RetErr(evAna, 2) != nil {
+		s := verif.NthArg[*Session](evAna, 0, 1)
+		nGen := verif.CallCount(evGen)
+		verif.Ensures(nGen >= 2 && verif.NthArg[string](evGen, nGen-2, 1) == s.visitorMsg.TransactionID && verif.NthArg[string](evGen, nGen-1, 1) == s.clientMsg.TransactionID, "analysis_error_answers_each_party_under_its_own_transaction")
+	}
 	const setSess = "mapset:H.pkg.nathole.Controller.sessions"
 	const delSess = "mapdel:H.pkg.nathole.Controller.sessions"
 	if ok0 {
@@ -321,6 +330,9 @@ func verif_analysis(c *Controller, session *Session) {
 		cRole, vRole := cResp.DetectBehavior.Role, vResp.DetectBehavior.Role
 		verif.Ensures((cRole == DetectRoleSender && vRole == DetectRoleReceiver) || (cRole == DetectRoleReceiver && vRole == DetectRoleSender), "exactly_one_sender_one_receiver")
 		verif.Ensures(verif.CallCount("nathole.getRangePorts") == 2, "ranges_from_getRangePorts")
+		// complementary timing: whoever listens is still reading five seconds
+		// after the later of the two parties has started sending
+		verif.Ensures(vResp.DetectBehavior.SendDelayMs+vResp.DetectBehavior.ReadTimeoutMs >= cResp.DetectBehavior.SendDelayMs+5000 && cResp.DetectBehavior.SendDelayMs+cResp.DetectBehavior.ReadTimeoutMs >= vResp.DetectBehavior.SendDelayMs+5000 && vResp.DetectBehavior.ReadTimeoutMs >= 5000 && cResp.DetectBehavior.ReadTimeoutMs >= 5000, "read_windows_cover_both_send_delays")
 	} else {
 		verif.Ensures(vResp == nil && cResp == nil, "error_gives_no_instruction")
 	}
